@@ -135,6 +135,11 @@ int vchild_run(const char *sockpath, const char *flags, const char *tag,
 {
   struct rlimit rl = { 0, 0 };
   setrlimit(RLIMIT_CORE, &rl);
+  // the case may have started us under a tiny descriptor limit: lift it for our own needs
+  if (getrlimit(RLIMIT_NOFILE, &rl) == 0 && rl.rlim_cur < 64 && rl.rlim_max >= 64) {
+    rl.rlim_cur = 64;
+    setrlimit(RLIMIT_NOFILE, &rl);
+  }
   const char *f;
   if (flags && strstr(flags, "ign15")) signal(SIGTERM, SIG_IGN);
   if (flags && (f = strstr(flags, "h15="))) {
@@ -358,6 +363,13 @@ finish:
 #ifndef VCHILD_EMBEDDED
 int main(int argc, char **argv)
 {
+  {
+    struct rlimit rl;
+    if (getrlimit(RLIMIT_NOFILE, &rl) == 0 && rl.rlim_cur < 64 && rl.rlim_max >= 64) {
+      rl.rlim_cur = 64;
+      setrlimit(RLIMIT_NOFILE, &rl);
+    }
+  }
   sbuf snap = { 0 };
   snapshot_fds(&snap);
   snapshot_sig(&snap);
